@@ -65,8 +65,13 @@ AGG_RULES = "agg.<env>.total (10) = sum app.<env>.*.count\nall.hits (60) = sum a
 
 
 def check_key(res, router, key, cell, configured, eligible, label):
-  d1 = list(router.getDestinations(key))
-  d2 = list(router.getDestinations(key))
+  try:
+    d1 = list(router.getDestinations(key))
+    d2 = list(router.getDestinations(key))
+  except Exception as e:
+    res.violation('%s/%s/raised/%s' % (label, 'diverse' if cell['diverse'] else 'plain', type(e).__name__),
+                  'getDestinations(%r) raised %r with destinations %r' % (key, e, cell['dests']), dict(key=key, cell=cell))
+    return False
   res.count('getDestinations_calls', 2)
   want = min(cell['rf'], eligible)
   sigbase = '%s/%s' % (label, 'diverse' if cell['diverse'] else 'plain')
